@@ -10,7 +10,7 @@ Not decided: set arithmetic on concrete values, ASSIGN/DEFINE/UPDATE ordering ov
 import re
 
 from verif import core
-from verif.tree import walk, show, stmt_list, meth, strip
+from verif.tree import walk, walk_fn, show, stmt_list, meth, strip
 
 LEVEL = "other"
 PARSER = "opm/input/eclipse/Schedule/UDQ/UDQParser.cpp"
@@ -425,6 +425,45 @@ def run(chk):
         chk.instance(r_cast, "op" + mm.group(1), sample=txt[:120])
         if not ok:
             chk.violation(r_cast, "op" + mm.group(1), "operator%s(UDQSet, UDQSet) must cast both operands with udq_cast(lhs, rhs) and return left %s= right" % (mm.group(1), mm.group(1)), f["file"], f["l"])
+
+    # ---- C17.reduce: the set -> scalar functions
+    from verif.canon import canon
+    r_red = chk.rule("C17.reduce", "every scalar (reduction) function of the UDQ function set computes its documented formula over the defined values: SUM, PROD, AVEA, AVEG, AVEH, MAX, MIN, NORM1, NORM2, NORMI (canonical expression trees; the fold's initial value and step are part of the comparison)", floor=10)
+    V = "defined_values"
+    RNG = "%s.begin(),%s.end()" % (V, V)
+    DOC_RED = {
+        "SUM": "accumulate(%s,0)" % RNG,
+        "PROD": "accumulate(%s,1,multiplies)" % RNG,
+        "AVEA": "div(accumulate(%s,0),%s.size())" % (RNG, V),
+        "AVEG": "exp(div(accumulate(%s,0,lambda(add($0,log($1)))),%s.size()))" % (RNG, V),
+        "AVEH": "div(%s.size(),accumulate(%s,0,lambda(add($0,div(1,$1)))))" % (V, RNG),
+        "NORMI": "accumulate(%s,0,lambda(max($0,fabs($1))))" % RNG,
+        "NORM1": "accumulate(%s,0,lambda(add($0,fabs($1))))" % RNG,
+        "NORM2": "sqrt(inner_product(%s,%s.begin(),0))" % (RNG, V),
+        "UDQ_MIN": "deref(min_element(%s))" % RNG,
+        "UDQ_MAX": "deref(max_element(%s))" % RNG,
+    }
+    fr = chk.facts(["opm/input/eclipse/Schedule/UDQ/UDQFunction.cpp"])
+    seen_red = set()
+    for f in fr.fns:
+        if f.get("cls") != "Opm::UDQScalarFunction" or not f.get("body") or f["n"] not in DOC_RED:
+            continue
+        env = {}
+        for n in walk_fn(f):
+            if n["k"] == "Decl":
+                for v in n["vars"]:
+                    if v.get("init") is not None and v["n"] != V:
+                        env[v["n"]] = v["init"]
+        vals = [n["a"][1] for n in walk_fn(f) if n["k"] == "Call" and (n.get("fn") or "").endswith("UDQSet::scalar") and len(n.get("a", [])) >= 2]
+        if len(vals) != 1:
+            raise core.AnalysisBroken("UDQScalarFunction::%s: expected one UDQSet::scalar(name, value) result, found %d" % (f["n"], len(vals)))
+        got = canon(vals[0], env)
+        seen_red.add(f["n"])
+        chk.instance(r_red, f["n"], sample=dict(function=f["n"], computes=got, documented=DOC_RED[f["n"]]))
+        if got != DOC_RED[f["n"]]:
+            chk.violation(r_red, f["n"], "UDQ scalar function %s computes %s; the documented reduction is %s" % (f["n"].replace("UDQ_", ""), got, DOC_RED[f["n"]]), f["file"], f["l"])
+    if seen_red != set(DOC_RED):
+        raise core.AnalysisBroken("UDQ scalar functions not found: %s" % sorted(set(DOC_RED) - seen_red))
 
     chk.assumptions += [
         "documented precedence: parentheses/functions, ^, * /, + -, comparisons, set operators (the property statement)",
